@@ -12,7 +12,7 @@ CHECK = {
                  "balance thread) with external submitter threads and tasks spawning children from inside workers, "
                  "stop() while tasks run and spawn, restart; Inplace / AlwaysUseNewThread / refusing executors; per-task "
                  "run counters, is_running_in(), futures, stamped submissions against the stop() call, stuck rule; "
-                 "TSan/ASan/UBSan on plain payloads crossing the global and local queues",
+                 "TSan/ASan/UBSan on plain payloads crossing the global and local queues; storm mode (sustained local spawning against the sweeping balance thread, per-task exactly-once counters)",
     "level_text": ("Runtime monitoring: every task has a record with a run counter, a plain input written before its "
                    "submission and a plain output written by the task. 1-6 external threads submit through "
                    "execute()/submit() with functions, member functions, functors, coroutine functions and coroutine "
